@@ -1304,8 +1304,7 @@ func (c S3ApiController) PutBucketActions(ctx *fiber.Ctx) error {
 		}
 
 		rulesCount := len(ownershipControls.Rules)
-		isValidOwnership := utils.IsValidOwnership(ownershipControls.Rules[0].ObjectOwnership, c.debug)
-		if rulesCount != 1 || !isValidOwnership {
+		if rulesCount != 1 || !utils.IsValidOwnership(ownershipControls.Rules[0].ObjectOwnership, c.debug) {
 			if c.debug && rulesCount != 1 {
 				debuglogger.Logf("ownership control rules should be 1, got %v", rulesCount)
 			}
